@@ -561,5 +561,7 @@ pub fn run(ctx: &Ctx) -> &'static str {
         || pure_strategy(50),
         |_| check_shell,
     );
+    // the real loop: start-up with lost REG1 frames, then the receiver forgets the group
+    crate::props::e2e::run(ctx, crate::props::e2e::Phase::Handshake, ctx.tier.pick(1, 3));
     "exploration"
 }
